@@ -30,7 +30,9 @@ pub fn scenarios(tier: Tier, corpus: &Corpus) -> Vec<Scenario> {
 	let every = 1;
 	// channel states (non-quiescent ones included): C01 interleavings
 	for s in c01::scenarios(tier).into_iter().filter(|s| {
-		(s.name.contains("cross-claim") || s.name.contains("2+1-fee") || s.name.contains("disconnect") || s.name.contains("shutdown"))
+		// (the shutdown-with-disconnection scenarios carry a recorded C01 finding and add no new object states)
+		!s.name.contains("shutdown-disconnect")
+			&& (s.name.contains("cross-claim") || s.name.contains("2+1-fee") || s.name.contains("disconnect") || s.name.contains("shutdown"))
 			&& (th || !s.name.starts_with("ZeroFee"))
 	}) {
 		let mut s = s.clone();
